@@ -18,14 +18,16 @@ from mc.props import _scenes as S
 ID = "C08"
 RULE = ("(a) every ranking of length <= 4 (thorough <= 5) over result prototypes {6 graded distance (or IoU) levels interleaving the "
         "threshold ladder, a wrong-heading correct result, GT-less, other-label} x ground-truth counts, evaluated at every threshold of "
-        "the 6-step ladder (distance 0.25..50 / IoU 0.9..0.0) for both labels moving independently (component-wise order via "
+        "the ladder (distance -1, 0, 0.1 .. 50 / IoU 1.0 .. 0.0) for both labels moving independently (component-wise order via "
         "single-coordinate steps); (b) matcher output of every scene sub-list pair (<=2 x <=2, ordinary ground truth only) x 3 policies along the ladder. Checked between consecutive ladder steps (transitivity gives all ordered pairs): TP set "
         "inclusion (identity), FN count non-increasing, AP/APH per label and mAP/mAPH non-decreasing, undefined stays undefined. "
         "state = (layer, mode, ranking/scene class, step at which something changes); non-trivial = some TP appears along the ladder")
 ASSUMPTIONS = [
     "ordinary (non false-positive-labelled) ground truth only, as the statement demands; tolerance 1e-12 on AP differences",
 ]
-LAD = {"CENTERDISTANCE": [0.0, 0.1, 0.5, 1.0, 2.0, 4.0, 50.0], "PLANEDISTANCE": [0.0, 0.1, 0.5, 1.0, 2.0, 4.0, 50.0],
+# the strict end of the distance ladders goes beyond the attainable range (a negative bound is accepted and nothing satisfies it;
+# IoU bounds outside [0, 1] are rejected by the library)
+LAD = {"CENTERDISTANCE": [-1.0, 0.0, 0.1, 0.5, 1.0, 2.0, 4.0, 50.0], "PLANEDISTANCE": [-1.0, 0.0, 0.1, 0.5, 1.0, 2.0, 4.0, 50.0],
        "IOU2D": [1.0, 0.9, 0.7, 0.5, 0.3, 0.1, 0.0], "IOU3D": [1.0, 0.9, 0.7, 0.5, 0.3, 0.1, 0.0]}
 DIST_LEVELS = [0.1, 0.4, 0.8, 1.5, 3.0, 10.0]
 SYMS = ["d0", "d1", "d2", "d3", "d4", "d5", "h", "N", "I"]
